@@ -62,13 +62,18 @@ def kernelRecord (r : Record) : List Verdict × List String :=
     let coefs := intList (r.get "coefs")
     let sig := intList (r.get "sig")
     let shift := r.nat "shift"
-    let m := optInts (computeError coefs shift sig)
+    let res := computeError coefs shift sig
+    let m := optInts (res.map (·.1))
     let impl := normPanic (r.get "impl")
     -- the exact residual, where it fits i32, must be what the code computed (losslessness of the LPC path)
     let exact := List.replicate coefs.length (0 : Int) ++ lpcResidual coefs shift sig
     let fits := exact.all fitsI32
     let vs := [check "c01.lpcerr" m impl]
     let vs := if fits ∧ impl ≠ "panic" then check "c01.lpcexact" (showInts exact) impl :: vs else vs
+    -- the flag `compute_error` returns (recorded as `impl_fits=1/0` by newer harnesses)
+    let vs := match r.get? "impl_fits", res with
+      | some f, some (_, flag) => check "c01.lpcfits" (if flag then "1" else "0") f :: vs
+      | _, _ => vs
     (vs, [s!"lpcerr.exactfits={fits}"])
   | "deint" =>
     let ch := r.nat "ch"
